@@ -30,14 +30,102 @@ C07_Checks(r) ==
        <<"C07.recompose", Ok(r.out.ok.str), C07_Recompose(r.out.ok)>>}
    ELSE {})
 
+\* programs of the generators for C01/C02/C06 use auto-encoding creators only; a record is judged
+\* only if it is not itself an encoded=True entry point
+EncodedEntry(r) == \/ (r.act = "ctor" /\ r.args.encoded)
+                   \/ (r.act = "build" /\ "encoded" \in DOMAIN r.args.kw)
+                   \/ (r.act \in {"with_path", "joinpath"} /\ r.args.encoded)
+                   \/ (r.act = "join" /\ r.args.ref.encoded)
+
+\* ---------------------------------------------------------------- C01
+C01_Checks(r) ==
+  IF OutOk(r) /\ ~EncodedEntry(r) THEN
+     LET o == r.out.ok IN
+     {<<"C01.ascii", C01_SchemeSane(o), C01_SchemeSane(o) => C01_Ascii(o)>>,
+      <<"C01.components", TRUE, C01_Components(o)>>}
+  ELSE {}
+
+\* ---------------------------------------------------------------- C02
+C02_Checks(r) ==
+  IF ~OutOk(r) \/ EncodedEntry(r) THEN {}
+  ELSE LET o == r.out.ok IN
+    IF r.act = "ctor" THEN {<<"C02.ctor", TRUE, C02_Ctor(r.args.s, o)>>}
+    ELSE IF r.act = "build" THEN {<<"C02.build", TRUE, C02_Build(r.args.kw, o)>>}
+    ELSE IF C02_ModifierApplies(r.act) THEN {<<"C02." \o r.act, TRUE, C02_Modifier(r.act, r.args, r.self, o)>>}
+    ELSE {}
+
+\* ---------------------------------------------------------------- C06
+C06_Checks(r) ==
+  IF ~OutOk(r) THEN {}
+  ELSE LET o == r.out.ok IN
+    {<<"C06.user", TRUE, C06_User(o)>>, <<"C06.password", TRUE, C06_Password(o)>>, <<"C06.path", TRUE, C06_Path(o)>>,
+     <<"C06.path_safe", TRUE, C06_PathSafe(o)>>, <<"C06.parts", TRUE, C06_Parts(o)>>, <<"C06.name", TRUE, C06_Name(o)>>,
+     <<"C06.suffix", TRUE, C06_Suffix(o)>>, <<"C06.fragment", TRUE, C06_Fragment(o)>>,
+     <<"C06.query_string", TRUE, C06_QueryString(o)>>, <<"C06.query", TRUE, C06_Query(o)>>}
+    \cup (IF EncodedEntry(r) THEN {}
+          ELSE IF r.act = "build" THEN {<<"C06.readback.build", TRUE, C06_ReadBackBuild(r.args.kw, o)>>}
+          ELSE IF C06_ReadBackApplies(r.act) THEN {<<"C06.readback." \o r.act, TRUE, C06_ReadBack(r.act, r.args, o)>>}
+          ELSE {})
+
+\* ---------------------------------------------------------------- C11
+C11_Checks(r) ==
+  IF OutOk(r) /\ Has_(r, "self") /\ C11_Applies(r.act) /\ ~EncodedEntry(r)
+  THEN {<<"C11.frame." \o r.act, TRUE, C11_Frame(r.act, r.args, r.self, r.out.ok)>>} ELSE {}
+
+\* ---------------------------------------------------------------- C15
+C15_Checks(r) ==
+  IF ~OutOk(r) \/ EncodedEntry(r) THEN {}
+  ELSE LET O == r.out.ok IN
+    {<<"C15.nodots", Netloc5(O) # <<>>, C15_NoDots(O)>>}
+    \cup (IF C15_ExpectedApplies(r.act, r.args, O)
+          THEN {<<"C15.rds." \o r.act, TRUE, C15_Expected(r.act, r.args, IF Has_(r, "self") THEN r.self ELSE O, O)>>} ELSE {})
+    \cup (IF Netloc5(O) = <<>> /\ r.act \in {"build", "with_path"}
+          THEN {<<"C15.verbatim." \o r.act, TRUE, C15_Verbatim(r.act, r.args, O)>>} ELSE {})
+
+\* ---------------------------------------------------------------- C14
+C14_Checks(r) ==
+  IF r.act # "join" \/ ~OutOk(r) \/ ~Has_(r, "other") \/ ~Ok(r.other) THEN {}
+  ELSE LET S == r.self R == r.other.ok O == r.out.ok IN
+    IF C14_RefUnchangedCase(S, R, UsesRelative) THEN {<<"C14.refunchanged", TRUE, SameParts(O, R)>>}
+    ELSE {<<"C14.transform", C14_Judged(S), C14_Judged(S) => C14_IsTransform(S, R, O)>>}
+
+\* ---------------------------------------------------------------- C03
+C03_Checks(r) ==
+  IF ~OutOk(r) \/ ~Has_(r, "reparse") \/ ~Ok(r.out.ok.str) THEN {}
+  ELSE LET O == r.out.ok IN
+    {<<"C03.fixedpoint", C03_ValidInput(O), C03_ValidInput(O) => C03_FixedPoint(O, r.reparse)>>}
+
+\* ---------------------------------------------------------------- C09
+C09_Checks(r) ==
+  IF ~OutOk(r) \/ ~Has_(r, "twin") THEN {}
+  ELSE {<<"C09.twin." \o k, TRUE, C09_TwinDiff(r.out.ok, r.twin[k]) = {}>> : k \in DOMAIN r.twin}
+
+\* ---------------------------------------------------------------- C17
+C17_Checks(r) ==
+  (IF OutOk(r) THEN LET O == r.out.ok IN
+      {<<"C17.fallback", TRUE, C17_PortFallback(O)>>, <<"C17.range", TRUE, C17_Range(O)>>,
+       <<"C17.strport", TRUE, C17_StrPort(O)>>, <<"C17.hostportsub", TRUE, C17_HostPortSub(O)>>}
+   ELSE {})
+  \cup (IF r.act = "with_port" /\ Has_(r, "self") THEN {<<"C17.with_port", TRUE, C17_WithPort(r.args, r.self, r.out)>>} ELSE {})
+  \cup (IF r.act = "build" /\ "encoded" \notin DOMAIN r.args.kw THEN {<<"C17.build_port", "port" \in DOMAIN r.args.kw, C17_BuildPort(r.args.kw, r.out)>>} ELSE {})
+
 Checks(r) ==
   CASE Prop = "C07" -> C07_Checks(r)
+    [] Prop = "C11" -> C11_Checks(r)
+    [] Prop = "C15" -> C15_Checks(r)
+    [] Prop = "C14" -> C14_Checks(r)
+    [] Prop = "C03" -> C03_Checks(r)
+    [] Prop = "C09" -> C09_Checks(r)
+    [] Prop = "C17" -> C17_Checks(r)
+    [] Prop = "C01" -> C01_Checks(r)
+    [] Prop = "C02" -> C02_Checks(r)
+    [] Prop = "C06" -> C06_Checks(r)
     [] OTHER -> {}
 
 \* ------------------------------------------------- attribution to named deviations of Level I
 \* (trigger predicate AND observed = what Level I predicts for the deviation)
 ModelOf(o) == Url(Scheme5(o), Netloc5(o), Path5(o), Query5(o), Frag5(o))
-StrAsModel(o) == Ok(o.str) /\ LET m == Str(ModelOf(o)) IN IsOK(m) /\ m.ok = V(o.str)
+StrAsModel(o) == "str" \in DOMAIN o /\ Ok(o.str) /\ LET m == Str(ModelOf(o)) IN IsOK(m) /\ m.ok = V(o.str)
 Trig_RootlessPathGainsSlashInStr(o) ==
   /\ Scheme5(o) # <<>> /\ Scheme5(o) \in UsesNetloc /\ Netloc5(o) = <<>>
   /\ Path5(o) # <<>> /\ Path5(o)[1] # SLASH /\ StrAsModel(o)
@@ -50,12 +138,11 @@ Trig_FirstSegmentColon(o) ==
 \* whole authority -- userinfo included -- disappears from the string
 Trig_EmptyHostDefaultPortStr(o) ==
   /\ Netloc5(o) # <<>> /\ SplitAuthority(Netloc5(o)).host = <<>>
-  /\ Ok(o.explicit_port) /\ V(o.explicit_port) # None /\ V(o.explicit_port) = DefaultPort(Scheme5(o))
+  /\ "explicit_port" \in DOMAIN o /\ Ok(o.explicit_port) /\ V(o.explicit_port) # None /\ V(o.explicit_port) = DefaultPort(Scheme5(o))
   /\ StrAsModel(o)
 ObsAttribution(o) ==
   (IF Trig_EmptyHostDefaultPortStr(o) THEN {"Dev_EmptyHostDefaultPortStr"} ELSE {}) \cup
-  (IF Trig_RootlessPathGainsSlashInStr(o) THEN {"Dev_RootlessPathGainsSlashInStr"} ELSE {})
-  \cup (IF Trig_FirstSegmentColon(o) THEN {"Dev_FirstSegmentColon"} ELSE {})
+  (IF Trig_FirstSegmentColon(o) THEN {"Dev_FirstSegmentColon"} ELSE {})
 \* Dev_BracketedNonIPv6LosesBrackets: _encode_host re-brackets only what ip_address() accepts, so an
 \* IPvFuture literal or bracketed junk loses its brackets in the stored authority (trigger only)
 HostInfoOf(A) == LET at == RFind(A, AT) IN IF at = 0 THEN A ELSE From(A, at + 1)
@@ -64,8 +151,27 @@ Trig_BracketedNonIPv6(r) ==
   /\ \E gray \in BOOLEAN :
        LET a == AppendixBWith(StripWhatwg(r.args.s), gray) IN
        Has(HostInfoOf(a.authority), LBR) /\ ~Has(HostInfoOf(Netloc5(r.out.ok)), LBR)
+\* Dev_EmptyHost: an authority with an EMPTY host (only for schemes outside http/https/ws/wss/ftp, or with
+\* encoded=True): eagerly cached raw_host is '' where the lazily derived one is None, make_netloc(host=None)
+\* drops userinfo and port, raw[-1] indexes an empty string.  Trigger only.
+EmptyHostObs(o) == \/ (Netloc5(o) # <<>> /\ SplitAuthority(Netloc5(o)).host = <<>>)
+                   \/ ("raw_host" \in DOMAIN o /\ Ok(o.raw_host) /\ V(o.raw_host) = Some(<<>>))   \* eager '' for '//@:'
+\* Dev_JoinRootlessBase: base without authority whose path is empty or rootless; observed = Level I Join
+Trig_JoinRootlessBase(r) ==
+  /\ r.act = "join" /\ OutOk(r) /\ Has_(r, "other") /\ Ok(r.other)
+  /\ Netloc5(r.self) = <<>> /\ (Path5(r.self) = <<>> \/ Path5(r.self)[1] # SLASH)
+  /\ LET j == Join(ModelOf(r.self), ModelOf(r.other.ok)) O == r.out.ok IN
+       j = Url(Scheme5(O), Netloc5(O), Path5(O), Query5(O), Frag5(O))
 Attribution(r) ==
   (IF OutOk(r) THEN ObsAttribution(r.out.ok) ELSE {})
+  \cup (IF Trig_JoinRootlessBase(r) THEN {"Dev_JoinRootlessBase"} ELSE {})
+  \* Dev_MakeChildClimbEatsRoot: '/' and joinpath with a '..' that climbs above the root (trigger only)
+  \cup (IF r.act \in {"truediv", "joinpath"} /\ Has_(r, "self") /\ "parts" \in DOMAIN r.self /\ Ok(r.self.parts)
+           /\ ClimbsAboveRoot(OldSegs(r.self) \o NewSegs(IF r.act = "truediv" THEN <<r.args.v>> ELSE r.args.vs))
+        THEN {"Dev_MakeChildClimbEatsRoot"} ELSE {})
+  \cup (IF (Has_(r, "self") /\ EmptyHostObs(r.self)) \/ (OutOk(r) /\ EmptyHostObs(r.out.ok)) THEN {"Dev_EmptyHost"} ELSE {})
+  \cup (IF OutOk(r) /\ "raw_query_string" \in DOMAIN r.out.ok /\ Ok(r.out.ok.raw_query_string) /\ HasBadEscapeRun(V(r.out.ok.raw_query_string), 1)
+        THEN {"Dev_QueryDecodeReplaces"} ELSE {})
   \cup (IF Trig_BracketedNonIPv6(r) THEN {"Dev_BracketedNonIPv6LosesBrackets"} ELSE {})
 
 VARIABLE l
@@ -76,6 +182,9 @@ TNext ==
          cs == Checks(r)
          failing == {c[1] : c \in {x \in cs : ~x[3]}}
      IN /\ IF failing = {} THEN TRUE ELSE PrintT(<<"VERDICT", r.id, failing, Attribution(r)>>)
+        /\ IF failing # {} /\ Prop = "C03" THEN PrintT(<<"DIFF", r.id, C03_DiffFields(r.out.ok, r.reparse)>>) ELSE TRUE
+        /\ IF failing # {} /\ Prop = "C09"
+           THEN PrintT(<<"DIFF", r.id, UNION {C09_TwinDiff(r.out.ok, r.twin[k]) : k \in DOMAIN r.twin}>>) ELSE TRUE
         /\ TLCSet(1, [n |-> TLCGet(1).n + 1,
                       applicable |-> TLCGet(1).applicable + Cardinality({x \in cs : x[2]})])
   /\ l' = l + 1
